@@ -383,6 +383,84 @@ func genLoop(r *Repo) (string, error) {
 		id := strings.ReplaceAll(k, ".", "_")
 		fmt.Fprintf(&b, "Definition body_%s : list string := %s.\n", id, coqStrList(stmtLines(w, fd.Body)))
 	}
+	// goroutines started by the server-side files, and the state the loop functions touch
+	var goSites []string
+	for _, fn := range []string{"server.go", "handlers.go", "path_tree.go"} {
+		f := files[fn]
+		if f == nil {
+			continue
+		}
+		for _, d := range f.Decls {
+			fd, ok := d.(*ast.FuncDecl)
+			if !ok || fd.Body == nil {
+				continue
+			}
+			name := fd.Name.Name
+			if fd.Recv != nil && len(fd.Recv.List) == 1 {
+				name = recvTypeName(fd.Recv.List[0].Type) + "." + name
+			}
+			ast.Inspect(fd.Body, func(n ast.Node) bool {
+				if _, ok := n.(*ast.GoStmt); ok {
+					goSites = append(goSites, name)
+				}
+				return true
+			})
+		}
+	}
+	fmt.Fprintf(&b, "(* functions of server.go/handlers.go/path_tree.go containing a go statement *)\nDefinition go_sites : list string := %s.\n\n", coqStrList(goSites))
+	pkgVars := map[string]bool{}
+	for _, n := range SortedNames(files) {
+		for _, d := range files[n].Decls {
+			if gd, ok := d.(*ast.GenDecl); ok && gd.Tok == token.VAR {
+				for _, sp := range gd.Specs {
+					for _, id := range sp.(*ast.ValueSpec).Names {
+						pkgVars[id.Name] = true
+					}
+				}
+			}
+		}
+	}
+	touched := map[string]bool{}
+	for _, k := range []string{"connState.handleRequest", "connState.handleRequests", "connState.StartTag", "connState.ClearTag", "connState.TagDone", "connState.handle", "send"} {
+		fd := fds[k]
+		if fd == nil || fd.Body == nil {
+			return "", fmt.Errorf("p9: %s not found", k)
+		}
+		ast.Inspect(fd.Body, func(n ast.Node) bool {
+			switch v := n.(type) {
+			case *ast.SelectorExpr:
+				// cs.X  or cs.server.X
+				if id, ok := v.X.(*ast.Ident); ok && id.Name == "cs" {
+					if v.Sel.Name != "server" {
+						touched["cs."+v.Sel.Name] = true
+					}
+				}
+				if in, ok := v.X.(*ast.SelectorExpr); ok {
+					if id, ok := in.X.(*ast.Ident); ok && id.Name == "cs" && in.Sel.Name == "server" {
+						touched["cs.server."+v.Sel.Name] = true
+					}
+				}
+			case *ast.Ident:
+				if pkgVars[v.Name] && v.Obj == nil {
+					touched["var "+v.Name] = true
+				} else if pkgVars[v.Name] {
+					if _, isField := v.Obj.Decl.(*ast.Field); !isField {
+						if vs, ok := v.Obj.Decl.(*ast.ValueSpec); ok && len(vs.Names) > 0 {
+							touched["var "+v.Name] = true
+						}
+					}
+				}
+			}
+			return true
+		})
+	}
+	var tl []string
+	for k := range touched {
+		tl = append(tl, k)
+	}
+	sort.Strings(tl)
+	fmt.Fprintf(&b, "(* state touched by handleRequest(s), StartTag, ClearTag, TagDone, handle, send: fields of the connection's own cs, of cs.server, package-level variables *)\nDefinition loop_state : list string := %s.\n\n", coqStrList(tl))
+
 	// send: the single vectored write
 	sd := fds["send"]
 	if sd == nil || sd.Body == nil {
